@@ -63,6 +63,8 @@ def combos(tier):
                     if role == "server":
                         for en in (1, 100, 5000):
                             C.append(dict(base, resume="ticket", early=en, sizes="5,300"))
+                        # 0-RTT data sent with a ClientHello that the server answers with HelloRetryRequest: skipped, the handshake goes on
+                        C.append(dict(base, resume="ticket", early=300, group="X25519:P-384", gid=24, hrr=1, sizes="5,300"))
                     other = [(i2, n2) for (i2, n2, v2, k2) in SUITES if "T13" in v2 and k2 == key and (("SHA384" in n2) != ("SHA384" in oname))]
                     if other:
                         C.append(dict(base, resume="ticket", suite2=hex(other[0][0]), oname2=other[0][1], sizes="5"))
